@@ -185,6 +185,8 @@ class ProgressivelyTerminalDecider(BaseDecider):
 
     def choose_production_alternatives(self, ty: type, alternatives: list[type], ctx: LocalSynthesisContext) -> type:
         assert len(alternatives) > 0, "No alternatives presented"
+        # an alternative that derives nothing (an abstract class without productions) is never an option
+        alternatives = [x for x in alternatives if self.grammar.get_distance_to_terminal(x) < INF_VALUE] or alternatives
 
         target = self.grammar.get_max_node_depth()
         if target == INF_VALUE:
